@@ -68,7 +68,7 @@ def _variants(prop, case):
     if op == "reduce":
         return [{"via": "flat", "how": "method"}, {"via": RVIAS[h % len(RVIAS)], "how": ["method", "np", "positional"][(h // 16) % 3], "pre": PRES[(h // 64) % len(PRES)]}]
     if op in ("scan", "nonzero", "col"):
-        return [{"via": "flat"}, {"via": RVIAS[h % len(RVIAS)], "how": ["method", "np"][(h // 16) % 2], "pre": PRES[(h // 64) % len(PRES)], "axis1": bool(h & 32)}]
+        return [{"via": "flat"}, {"via": RVIAS[h % len(RVIAS)], "how": ["method", "np"][(h // 16) % 2], "pre": PRES[(h // 64) % len(PRES)], "axis1": bool(h & 32), "defaults": bool(h & 8)}]
     if op in ("like", "pad"):
         return [{"via": "flat"}, {"via": RVIAS[h % len(RVIAS)], "pre": PRES[(h // 64) % len(PRES)]}]
     if op == "concat":
